@@ -27,6 +27,8 @@ def main():
     ap.add_argument("--seconds", default="20")
     ap.add_argument("--seed", default="1")
     ap.add_argument("--skip-confirm", action="store_true")
+    ap.add_argument("--patch", default="patch.diff")
+    ap.add_argument("--demo", default="demo.py")
     a = ap.parse_args()
     wt = f"/tmp/confirm_{a.name}"
     meta = {"name": a.name, "breaks_property": a.prop, "ran": []}
@@ -36,12 +38,12 @@ def main():
         print(out); return 2
     try:
         env = dict(os.environ, PYTHONPATH=wt)
-        shutil.copy(os.path.join(a.src, "demo.py"), wt)
+        shutil.copy(os.path.join(a.src, a.demo), os.path.join(wt, "demo.py"))
         if not a.skip_confirm:
             rc0, out0 = sh([PY, "demo.py"], cwd=wt, env=env, timeout=300)
             meta["demo_without_change_rc"] = rc0
             print("demo without change: rc", rc0)
-        rc, out = sh(["git", "apply", os.path.join(a.src, "patch.diff")], cwd=wt)
+        rc, out = sh(["git", "apply", os.path.join(a.src, a.patch)], cwd=wt)
         if rc:
             print("patch does not apply:", out); return 2
         if not a.skip_confirm:
@@ -74,9 +76,9 @@ def main():
         meta["check_results"] = results
         dst = os.path.join(HERE, "seeded", a.name)
         os.makedirs(dst, exist_ok=True)
-        for f in ("patch.diff", "demo.py", "NOTES.md"):
+        for f, g in ((a.patch, "patch.diff"), (a.demo, "demo.py"), ("NOTES.md", "NOTES.md")):
             if os.path.exists(os.path.join(a.src, f)):
-                shutil.copy(os.path.join(a.src, f), dst)
+                shutil.copy(os.path.join(a.src, f), os.path.join(dst, g))
         old = {}
         mp = os.path.join(dst, "meta.json")
         if os.path.exists(mp):
